@@ -50,16 +50,22 @@ fn substr_ascii(n: usize) {
 }
 
 /// C18: substring(s,i,j) is characters i..j of an ASCII string; out-of-range offsets are skipped (all i, j: usize)
-#[cfg_attr(kani, kani::proof)]
-#[cfg_attr(kani, kani::stub(alloc::fmt::format, fmt_stub))]
-#[cfg_attr(verif_replay, test)]
-fn k_substr_ascii() {
-    lib_only!();
-    substr_ascii(0);
-    substr_ascii(1);
-    substr_ascii(2);
-    substr_ascii(3);
+macro_rules! substr_harness {
+    ($name:ident, $n:expr) => {
+        #[cfg_attr(kani, kani::proof)]
+        #[cfg_attr(kani, kani::unwind(5))]
+        #[cfg_attr(kani, kani::stub(alloc::fmt::format, fmt_stub))]
+        #[cfg_attr(verif_replay, test)]
+        fn $name() {
+            lib_only!();
+            substr_ascii($n);
+        }
+    };
 }
+substr_harness!(k_substr_ascii_0, 0usize);
+substr_harness!(k_substr_ascii_1, 1usize);
+substr_harness!(k_substr_ascii_2, 2usize);
+substr_harness!(k_substr_ascii_3, 3usize);
 
 /// C08: substring never panics, also when an offset falls inside a multi-byte character
 #[cfg_attr(kani, kani::proof)]
@@ -149,6 +155,17 @@ fn k_join() {
     }
     std::mem::forget(r);
     std::mem::forget(args);
+    std::mem::forget(d);
+}
+
+/// join: empty selection => empty string; a non-string or unresolved member => error
+#[cfg_attr(kani, kani::proof)]
+#[cfg_attr(kani, kani::unwind(4))]
+#[cfg_attr(kani, kani::stub(alloc::fmt::format, fmt_stub))]
+#[cfg_attr(verif_replay, test)]
+fn k_join_edge() {
+    lib_only!();
+    let d = ascii_string(1);
     let empty: Vec<QueryResult> = Vec::new();
     let r = join(&empty, d.as_str());
     match &r {
